@@ -29,3 +29,8 @@ Definition chk_delete (f : fs) (base : path) (files : list string) (opens writab
 
 Definition chk_create (f : fs) (p : path) (ow : bool) (rc : Z) : bool :=
   res_compat (create_gate f p ow) rc.
+
+Definition chk_rdelete (f : fs) (base : path) (topfiles afiles : list string) (opens writable : bool)
+  (rc : Z) (remaining : fs) : bool :=
+  let '(r, f') := delete_ragged f base topfiles afiles opens writable in
+  res_compat r rc && fs_same f' remaining.
